@@ -1,4 +1,131 @@
-(* C18 - timed queue / executors. Statements only. *)
-From Coq Require Import NArith List Bool.
-From Verif.C18_Timed Require Import Model Proofs.
+(* C18 - timed Queue / Executor / TaskExecutor: never early, at most once, cancel honoured. Statements only.
+   The model (C18_Timed/Model.v) mirrors runtime/timed after the repairs d167a95, 3715404, 3675c1d; [init w m md rc bc]
+   = w workers, size bound m (0 = none), wrapper mode md, Poll re-checks the cancel channel (rc), Shutdown always
+   broadcasts (bc).  [run s labels] executes an arbitrary schedule of client calls, clock ticks and worker steps. *)
+From Coq Require Import NArith List Bool Relations.
+From Verif.C18_Timed Require Import Model Heap Micro Proofs Witness Progress.
 Import ListNotations.
+
+(* For every configuration (also the pinned variants) and every schedule: a value is never delivered before its
+   scheduled time, unless a Shutdown with IgnorePendingTimeouts was called before (stamps of the logical clock). *)
+Theorem C18_never_early : forall w m md rc bc (ls : list label),
+  never_early (log (run (init w m md rc bc) ls)) = true.
+Proof. exact never_early_run. Qed.
+
+(* ... and every element is delivered at most once. *)
+Theorem C18_at_most_once : forall w m md rc bc (ls : list label),
+  at_most_once (log (run (init w m md rc bc) ls)) = true.
+Proof. exact at_most_once_run. Qed.
+
+(* Repaired Poll (rc = true): in every schedule a delivery of e is never stamped after the completion of a Cancel
+   of e (guard band 0) ... *)
+Theorem C18_cancel_honoured : forall w m md bc (ls : list label),
+  cancel_honoured 0 (log (run (init w m md true bc) ls)) = true.
+Proof. exact cancel_honoured_run. Qed.
+
+(* ... and in log order: once Cancel(e) has completed (its channel is closed), no continuation of the schedule
+   ever delivers e. *)
+Theorem C18_cancelled_never_delivered : forall w m md bc ls1 ls2 e,
+  let s := run (init w m md true bc) ls1 in
+  memb e (closed s) = true ->
+  exists l, log (run s ls2) = l ++ log s /\ forall a, ~ In (EDeliver e a) l.
+Proof.
+  intros w m md bc ls1 ls2 e s C.
+  apply cancel_then_never_delivered; auto.
+  - apply run_recheck.
+  - apply run_micro.
+Qed.
+
+(* every completed Cancel closes the channel (so the premise above holds from then on) *)
+Theorem C18_cancel_closes : forall w m md rc bc ls e r a,
+  let s := run (init w m md rc bc) ls in In (ECancel e r a) (log s) -> memb e (closed s) = true.
+Proof. intros w m md rc bc ls e r a s H. apply (i_can s (inv_run w m md rc bc ls) e r a H). Qed.
+
+(* D18c: the pinned Poll (no re-check) delivers an element whose Cancel completed before the select was entered. *)
+Theorem C18_refuted_cancel_late :
+  exists ls, cancel_honoured 0 (log (run (init 1 0 IfOwn false true) ls)) = false.
+Proof. exists (d18c 1). exact (proj2 refuted_cancel_late_pinned). Qed.
+
+(* "No reachable stuck state with an undelivered, uncancelled, undropped element": in every reachable state of the
+   repaired code with at least one worker, if an element is pending (in the heap or held by a worker that has not
+   decided yet), some worker can take a step, possibly after the clock has advanced. *)
+Theorem C18_eventually_once_progress : forall w m md rc bc ls,
+  0 < w -> let s := run (init w m md rc bc) ls in
+  pend s <> [] -> exists d i ws, nth_error (workers s) i = Some ws /\ can_step (step s (LTick d)) ws = true.
+Proof. exact progress_run. Qed.
+
+(* D18d: the pinned Shutdown (broadcast only when the heap is empty) leaves a worker asleep for ever. *)
+Theorem C18_refuted_shutdown_sleeper :
+  exists ls, let s := run (init 2 0 IfOwn true false) ls in
+  workers s = [WExit; WWait] /\ heap s = [] /\ shut s = true.
+Proof. exists d18d. destruct refuted_shutdown_sleeper_pinned as (A & B & C & _). auto. Qed.
+
+(* TaskExecutor, step-local (any state): Cancel(id) returns true exactly when the map tracks a task for id; it
+   then untracks id and marks the task dead ... *)
+Theorem C18_task_executor_cancel_partial : forall s k,
+  let s' := tcancel_step s k in
+  hd EReject (log s') = ETCancel k (match tget k (tmap s) with Some _ => true | None => false end) /\
+  tget k (tmap s') = None /\ (forall e, tget k (tmap s) = Some e -> In e (dead s')).
+Proof. exact tcancel_result. Qed.
+
+(* ... re-scheduling replaces: the map (a function: at most one tracked task per identifier) then holds the new
+   task and the old one is dead ... *)
+Theorem C18_task_executor_replace_partial : forall s t k, shut s = false ->
+  exists id, tget k (tmap (add_step s t (Some k))) = Some id /\
+             (forall e, tget k (tmap s) = Some e -> e <> id -> In e (dead (add_step s t (Some k)))).
+Proof. exact add_replaces. Qed.
+
+(* ... and the repaired wrapper starts the callback of a task only if the map tracks exactly this task. *)
+Theorem C18_task_executor_start_partial : forall s w c e k,
+  mode s = IfOwn -> nth_error (workers s) w = Some (WDeliv e) -> ekey e = Some k ->
+  hd EReject (log (worker_step s w c)) = EStart (eid e) -> tget k (tmap s) = Some (eid e).
+Proof. exact start_requires_tracked. Qed.
+
+(* The full inductive statement (not proved; see notes/C18.md): *)
+Definition C18_task_executor_full_statement : Prop :=
+  forall w ls, let s := run (init w 0 IfOwn true true) ls in
+  (forall e, In e (dead s) -> ~ In e (started (log s))) /\
+  (forall k e, tget k (tmap s) = Some e -> fcancel s = false ->
+     exists x, In x (pend s) /\ eid x = e /\ ekey x = Some k).
+
+(* D18a: the pinned wrapper. Cancel(1) = false while task 1 of identifier 1 is pending and untracked; it then runs. *)
+Theorem C18_refuted_wrapper :
+  exists ls1 ls2, let s := run (init 1 0 Unconditional true true) ls1 in
+  hd EReject (log s) = ETCancel 1 false /\ heap s = [mkE 1 100%N (Some 1)] /\ tget 1 (tmap s) = None /\
+  started (log (run s ls2)) = [1; 0].
+Proof. exists d18a_prefix, d18a_suffix. exact refuted_wrapper_pinned. Qed.
+
+(* finding taskexecutor-stale-identifier: with a size bound, Cancel(id) = true for a task that was already dropped *)
+Theorem C18_refuted_cancel_true_after_drop :
+  exists ls, log (run (init 0 1 IfOwn true true) ls) =
+  [ETCancel 1 true; ECancel 1 false 0%N; EDrop 1; EAdd 1 20%N (Some 1) 0%N; EAdd 0 10%N (Some 0) 0%N].
+Proof. exists stale. exact refuted_cancel_true_after_drop. Qed.
+
+(* non-vacuity: a schedule with deliveries, a cancel, a drop-free run; the predicates are not trivially true *)
+Example C18_nonvacuous :
+  let l := log (run (init 2 0 IfOwn true true)
+     [LAdd 5%N None; LAdd 3%N (Some 0); LAdd 9%N None; LWorker 0 0; LWorker 1 0; LCancel 2; LWorker 0 0; LWorker 1 0;
+      LTick 6%N; LWorker 0 0; LWorker 1 0; LWorker 0 0; LWorker 1 0]) in
+  delivered l = [(0, 6%N); (1, 6%N)] /\ never_early l = true /\ cancel_at 2 l = Some 0%N /\
+  never_early (EDeliver 7 1%N :: EAdd 7 5%N None 0%N :: l) = false /\
+  at_most_once (EDeliver 0 7%N :: l) = false.
+Proof. vm_compute. repeat split; reflexivity. Qed.
+
+Example C18_progress_nonvacuous :
+  let s := run (init 1 0 IfOwn true true) [LAdd 5%N None; LWorker 0 0; LWorker 0 0] in
+  pend s = [mkE 0 5%N None] /\ workers s = [WParked (mkE 0 5%N None)] /\ can_step s (WParked (mkE 0 5%N None)) = false.
+Proof. vm_compute. repeat split; reflexivity. Qed.
+
+Print Assumptions C18_never_early.
+Print Assumptions C18_at_most_once.
+Print Assumptions C18_cancel_honoured.
+Print Assumptions C18_cancelled_never_delivered.
+Print Assumptions C18_cancel_closes.
+Print Assumptions C18_refuted_cancel_late.
+Print Assumptions C18_eventually_once_progress.
+Print Assumptions C18_refuted_shutdown_sleeper.
+Print Assumptions C18_task_executor_cancel_partial.
+Print Assumptions C18_task_executor_replace_partial.
+Print Assumptions C18_task_executor_start_partial.
+Print Assumptions C18_refuted_wrapper.
+Print Assumptions C18_refuted_cancel_true_after_drop.
